@@ -2000,3 +2000,29 @@ def export_test_params_rule(syn, prop, rule="C16.R10"):
                fn["file"], fn["line"])
     r.floor = 1
     return r
+
+
+def empty_name_rule(syn, prop, rule="C04.R8"):
+    """`"".chars().all(p)` is vacuously true: unless the empty string is sent to the quoting branch explicitly, a name that is
+    empty (rename = "", or `__` under PascalCase/camelCase) is emitted bare: `{ : number, }`."""
+    r = Result(rule, "raw_name_to_ts_field sends the empty name to the quoting branch: the `first character` test maps the absence of a first character to *invalid* (or an is_empty() test is part of the decision), since the all-characters test is vacuously true for it")
+    fn = syn.fn("utils::raw_name_to_ts_field", "utils.rs") or syn.fn("raw_name_to_ts_field", "utils.rs")
+    if fn is None:
+        r.fail(prop, "anchor-missing raw_name_to_ts_field", "not found")
+        return r
+    vac = [e for e in S.events(fn, "mcall") if S.squash(e.get("method", "")) == "all"]
+    firsts = [e for e in S.events(fn, "mcall") if S.squash(e.get("method", "")) in ("map_or", "is_some_and", "is_none_or", "map_or_else")]
+    body_txt = S.squash(json.dumps([{k: v for k, v in e.items() if k != "ctx"} for e in fn["events"]]))
+    handles_empty = "is_empty()" in body_txt
+    for e in firsts:
+        m = S.squash(e["method"])
+        a0 = S.squash(e["args"][0]) if e.get("args") else ""
+        if (m == "map_or" and a0 == "false") or m == "is_some_and":
+            handles_empty = True
+    r.inst(fn=fn["qual"], vacuous_all_tests=len(vac), first_char_tests=[(S.squash(e["method"]), S.squash(e["args"][0]) if e.get("args") else None) for e in firsts], empty_name_is_quoted=handles_empty)
+    if vac and not handles_empty:
+        r.fail(prop, "empty-name-unquoted utils::raw_name_to_ts_field",
+               "the empty name passes both validity tests (`all` is vacuously true, the first-character test defaults to valid) and is emitted unquoted: `#[serde(rename_all = \"PascalCase\")] struct S { __: u8 }` declares `{ : number, }`",
+               fn["file"], fn["line"])
+    r.floor = 1
+    return r
